@@ -243,7 +243,9 @@ func checkC03(p *Prog, r *Report) {
 			controlled = append(controlled, f)
 		}
 	}
-	via := p.CG().Reachable(controlled, func(e *CallEdge) bool { return !e.Go && e.Kind != "iface" || (e.Kind == "iface" && !strings.HasPrefix(e.Callee.Name, "controllingSelector.")) })
+	via := p.CG().Reachable(controlled, func(e *CallEdge) bool {
+		return !e.Go && e.Kind != "iface" || (e.Kind == "iface" && !strings.HasPrefix(e.Callee.Name, "controllingSelector."))
+	})
 	for name := range uc {
 		if f := p.Fn(name); f != nil {
 			_, reach := via[f]
